@@ -98,6 +98,20 @@ def handoff(ctx: Ctx, rule="R-C03-HANDOFF") -> None:
     ctx.note(f"hand-off region: {len(held_region)} nodes, {sum(1 for i in held_region if flow.is_suspension(g.nodes[i]))} suspension points examined")
 
 
+def _first_of(f, e: ast.AST, tup_call: ast.AST) -> bool:
+    """e is the first element of the tuple produced by `tup_call`: a name unpacked from it in first position, `<local bound to it>[0]`, or `<call>[0]`."""
+    if isinstance(e, ast.Name):
+        return any(isinstance(n, ast.Assign) and isinstance(n.targets[0], (ast.Tuple, ast.List)) and n.targets[0].elts and dotted(n.targets[0].elts[0]) == e.id and n.value is tup_call
+                   for n in ast.walk(f.node)) or any(isinstance(d, ast.Subscript) and _first_of(f, d, tup_call) for d in C.local_defs(f, e.id) if len(C.local_defs(f, e.id)) == 1)
+    if isinstance(e, ast.Subscript) and C.is_const(e.slice, 0):
+        if e.value is tup_call:
+            return True
+        if isinstance(e.value, ast.Name):
+            defs = C.local_defs(f, e.value.id)
+            return len(defs) == 1 and defs[0] is tup_call
+    return False
+
+
 def _drains_all(f, loop: ast.AST, q: str) -> bool:
     """`while q.qsize() > 0` / `while not q.empty()` / `for _ in range(q.qsize())` with no suspension point in the body (the count is fixed up front)."""
     if isinstance(loop, ast.While):
@@ -119,8 +133,8 @@ def finish(ctx: Ctx, rule="R-C03-FINISH") -> None:
     rej = [n for n in g.calls() if C.broker_op(ctx, n, ("reject",))]
     gat = [n for n in g.calls() if (n.callee or "").endswith("gather")]
     canc = [n for n in g.calls() if n.callee == "self.consume_task.cancel"]
-    ok = len(gets) == 1 and len(rej) == 1 and len(gat) == 1 and gat[0].id in await_map(g) and isinstance(rej[0].ast.args[0], ast.Name)
-    ok = ok and any(isinstance(n, ast.Assign) and isinstance(n.targets[0], ast.Tuple) and dotted(n.targets[0].elts[0]) == rej[0].ast.args[0].id and n.value is gets[0].ast for n in ast.walk(f.node))
+    ok = len(gets) == 1 and len(rej) == 1 and len(gat) == 1 and gat[0].id in await_map(g) and bool(rej[0].ast.args)
+    ok = ok and _first_of(f, rej[0].ast.args[0], gets[0].ast)
     coll = [c for c in ast.walk(f.node) if isinstance(c, ast.Call) and isinstance(c.func, ast.Attribute) and c.func.attr == "append" and c.args and rej and c.args[0] is rej[0].ast]
     ok = ok and len(coll) == 1 and isinstance(gat[0].ast.args[0], ast.Starred) and dotted(gat[0].ast.args[0].value) == dotted(coll[0].func.value)
     ctx.check(ok, rule, f, "redis finish: every prefetched message is rejected, rejects awaited", "get_nowait -> reject(key) per item; await gather(*rejects)",
